@@ -2,6 +2,7 @@ package sym
 
 import (
 	"fmt"
+	"os"
 	"math/big"
 
 	"github.com/shopspring/decimal"
@@ -25,6 +26,8 @@ func abs64(n int64) int64 {
 	}
 	return n
 }
+
+var decRealRounding = os.Getenv("SYMGO_DECREAL") != ""
 
 func (d Dec) isSym() bool { return d.T != nil || d.I != nil }
 
@@ -238,7 +241,7 @@ func (in *Interp) decDivZero(b Dec) {
 // mode: "trunc", "round" (half away), "floor", "ceil", "bank", "up" (away from zero)
 func (in *Interp) decRounded(x Dec, p int64, mode string) Dec {
 	tc := in.TC
-	if xi, xs, ok := in.scaled(x); ok {
+	if xi, xs, ok := in.scaled(x); ok && !(decRealRounding && xs-p >= 6) {
 		if xs <= p {
 			return x
 		}
